@@ -5,7 +5,8 @@
    the body does not tell apart: e.g. an injective key), size = size of a pickled value.  Histories are lists of any length; worlds hold any number of instances and one disk. *)
 From Coq Require Import ZArith List Bool String Ascii.
 From DM Require Import Base.PyVal Gen.KMemo Spec.Memo Model.Memo Proofs.MemoFacts Run.SC20 Run.RC20 Proofs.MemoRunFacts
-                       Spec.MemoKey Model.MemoKey Proofs.MemoKeyFacts Proofs.MemoKeyedFacts Proofs.MemoSerialFacts.
+                       Spec.MemoKey Model.MemoKey Proofs.MemoKeyFacts Proofs.MemoKeyedFacts Proofs.MemoSerialFacts
+                       Spec.MemoLazy Model.MemoLazy Proofs.MemoLazyFacts.
 Import ListNotations.
 Open Scope Z_scope.
 
@@ -333,8 +334,8 @@ Print Assumptions C20_serialised_isolation.
 (* ---- non-vacuity ---- *)
 Definition ex_sizes : list (Z * Z) := [(1, 100); (2, 100); (3, 100)].
 Definition ex_ops : list (op nat Z Z) :=
-  [ONew (mo false None true 250 0); OCall 0 1%nat; OCall 0 2%nat; OCall 0 1%nat; OCall 0 103%nat;
-   OCall 0 1%nat; OClear 0; OCall 0 103%nat; OCall 0 103%nat;
+  [ONew (mo false None true 250 0); OCall 0 1%nat; OCall 0 2%nat; OCall 0 1%nat; OCall 0 1003%nat;
+   OCall 0 1%nat; OClear 0; OCall 0 1003%nat; OCall 0 1003%nat;
    ONew (mo true (Some (-1)) false 0 7); OCall 1 2%nat; ONew (mo true (Some (-1)) false 0 7); OCall 2 3%nat].
 (* the premises of the world theorems hold for it *)
 Example C20_ex_new_ok : Forall (new_ok nat Z Z ckey) ex_ops.
@@ -342,14 +343,14 @@ Proof.
   repeat constructor; simpl; try discriminate; intros a H; unfold ckey in H;
     pose proof (Nat2Z.is_nonneg a) as G; rewrite H in G; apply G; reflexivity.
 Qed.
-(* runs, hit, eviction of the oldest entry (class 1 re-executes after 103 was stored), forced thunk,
+(* runs, hit, eviction of the oldest entry (class 1 re-executes after 1003 was stored), forced thunk,
    clear, persistent explicit key shared by a new instance *)
 Example C20_ex_trace :
   map (fun t => match t with TCall _ a e => (Z.of_nat a, e_ran e, e_ret e, Z.of_nat (e_forced e), e_keys e) | _ => (0, false, 0, 0, []) end)
       (model_trace ex_sizes ex_ops)
   = [(0, false, 0, 0, []); (1, true, 1, 0, [1]); (2, true, 2, 0, [1; 2]); (1, false, 1, 0, [1; 2]);
-     (103, true, 3, 1, [2; 103]); (1, true, 1, 0, [103; 1]); (0, false, 0, 0, []);
-     (103, true, 3, 1, [1; 103]); (103, false, 3, 0, [1; 103]);
+     (1003, true, 3, 1, [2; 1003]); (1, true, 1, 0, [1003; 1]); (0, false, 0, 0, []);
+     (1003, true, 3, 1, [1; 1003]); (1003, false, 3, 0, [1; 1003]);
      (0, false, 0, 0, []); (2, true, 2, 0, []); (0, false, 0, 0, []); (3, false, 2, 0, [])].
 Proof. vm_compute. reflexivity. Qed.
 Example C20_ex_accepted : oracle ex_sizes (model_trace ex_sizes ex_ops) = true.
@@ -429,3 +430,51 @@ Theorem C20_callable_numbers_keyed_by_value : forall has_name : bool,
   k_serialize_obj true true has_name false false false false = BDumps.
 Proof. exact k_serialize_obj_callable_value. Qed.
 Print Assumptions C20_callable_numbers_keyed_by_value.
+
+(* ---- lazy=True: the walk of _lazy_evaluation_obj over the argument list (Model/MemoLazy.v, every decision through the
+   regenerated dispatch chain k_lazy_obj and the test k_lazy_test; the comprehensions of _lazy_evaluation_args /
+   _lazy_evaluation_kwargs are pinned) ---- *)
+(* every callable of the argument list -- an argument, a keyword value, or a member of a list / tuple / dict at any
+   depth -- is evaluated exactly once when the body runs *)
+Theorem C20_lazy_forces_every_callable_once : forall c : call,
+  lazy_call_forced true c = nfuns_call c.
+Proof. exact lazy_call_forced_all. Qed.
+Print Assumptions C20_lazy_forces_every_callable_once.
+
+(* the body never receives a callable (the values of the callables hold none: they are not evaluated again) *)
+Theorem C20_lazy_body_receives_no_callable : forall value_of : option string -> arg,
+  (forall n, nfuns (value_of n) = 0%nat) ->
+  forall c : call, nfuns_call (lazy_call value_of true c) = 0%nat.
+Proof. exact lazy_call_no_callable. Qed.
+Print Assumptions C20_lazy_body_receives_no_callable.
+
+(* what the body receives is the argument list of the L0 spec -- every callable replaced by its value, nothing else
+   changed -- up to the property's argument equivalence (a tuple may have become a list) *)
+Theorem C20_lazy_body_receives_evaluated_arguments : forall value_of : option string -> arg,
+  (forall n, arg_eqvb (value_of n) (value_of n) = true) ->
+  forall c : call, call_wfb c = true -> call_eqvb (lazy_call value_of true c) (eval_call value_of c) = true.
+Proof. exact lazy_call_refines. Qed.
+Print Assumptions C20_lazy_body_receives_evaluated_arguments.
+
+(* without lazy=True nothing is evaluated and the argument list is passed on as it is *)
+Theorem C20_lazy_off : forall (value_of : option string -> arg) (c : call),
+  lazy_call value_of false c = c /\ lazy_call_forced false c = 0%nat.
+Proof. exact lazy_call_off. Qed.
+Print Assumptions C20_lazy_off.
+
+(* non-vacuity: f({'left': [g], 'right': [h, 10]}, extra=[(k, 'x')]) -- no direct member of either container is
+   callable; three callables are evaluated, the body receives the numbers *)
+Definition ex_lazy_tab : list (string * arg) := [("g", AInt 1); ("h", AInt 2); ("k", AInt 3)]%string.
+Definition ex_lazy_call : call :=
+  mkcall [ADict [("left", AList [AFun (Some "g")]); ("right", AList [AFun (Some "h"); AInt 10])]]%string
+         [("extra", AList [ATuple [AFun (Some "k"); AStr "x"]])]%string.
+Example C20_ex_lazy :
+  lazy_call (fun_table ex_lazy_tab) true ex_lazy_call
+  = mkcall [ADict [("left", AList [AInt 1]); ("right", AList [AInt 2; AInt 10])]]%string
+           [("extra", AList [AList [AInt 3; AStr "x"]])]%string
+  /\ lazy_call_forced true ex_lazy_call = 3%nat
+  /\ lazy_observed_ok ex_lazy_tab ex_lazy_call (lazy_call (fun_table ex_lazy_tab) true ex_lazy_call) 3 = true
+  /\ lazy_agrees ex_lazy_tab true ex_lazy_call (lazy_call (fun_table ex_lazy_tab) true ex_lazy_call) 3 = true
+  (* an implementation that passes the containers on untouched is rejected by the oracle *)
+  /\ lazy_observed_ok ex_lazy_tab ex_lazy_call ex_lazy_call 0 = false.
+Proof. vm_compute. repeat split; reflexivity. Qed.
